@@ -439,4 +439,55 @@ theorem cdotT_singleton (a b : Tensor (Cpx R)) (d : Int) : cdotT a b [d] = reduc
 
 end Ops
 
+/-! ## `view_as_complex` / `view_as_real` are mutually inverse on `(…, 2)` tensors -/
+section Views
+variable {R : Type}
+
+theorem pairs_unpairs (zs : List (Cpx R)) : pairs (unpairs zs) = zs := by
+  induction zs with
+  | nil => rfl
+  | cons z zs ih =>
+    show pairs (z.re :: z.im :: unpairs zs) = _
+    rw [pairs, ih]
+
+theorem unpairs_pairs (xs : List R) (n : Nat) (h : xs.length = 2 * n) : unpairs (pairs xs) = xs := by
+  induction n generalizing xs with
+  | zero =>
+    have : xs = [] := List.length_eq_zero_iff.mp (by omega)
+    subst this; rfl
+  | succ n ih =>
+    match xs, h with
+    | a :: b :: rest, h =>
+      have hr : rest.length = 2 * n := by simp at h; omega
+      show a :: b :: unpairs (pairs rest) = _
+      rw [ih rest hr]
+
+/-- `view_as_complex(view_as_real(z)) = z` -/
+theorem viewAsComplex_viewAsReal (t : Tensor (Cpx R)) : viewAsComplex (viewAsReal t) = some t := by
+  unfold viewAsComplex viewAsReal
+  simp [pairs_unpairs]
+
+/-- `view_as_real(view_as_complex(t)) = t` for a well-formed tensor whose last axis has length 2 (and
+`view_as_complex` is defined exactly then) -/
+theorem viewAsReal_viewAsComplex (t : Tensor R) (z : Tensor (Cpx R)) (h : viewAsComplex t = some z)
+    (w : t.data.length = prod t.shape) : viewAsReal z = t := by
+  unfold viewAsComplex at h
+  split at h
+  · rename_i h2
+    injection h with h; subst h
+    have hs : t.shape = t.shape.dropLast ++ [2] := by
+      obtain ⟨ys, hys⟩ := List.getLast?_eq_some_iff.mp h2
+      rw [hys, List.dropLast_concat]
+    have hl : t.data.length = 2 * prod t.shape.dropLast := by
+      rw [w]; conv => lhs; rw [hs]
+      rw [prod_append, prod_cons, prod_nil, Nat.mul_one, Nat.mul_comm]
+    unfold viewAsReal
+    simp only [unpairs_pairs t.data _ hl, ← hs]
+  · simp at h
+
+theorem viewAsComplex_isSome_iff (t : Tensor R) : (viewAsComplex t).isSome = true ↔ t.shape.getLast? = some 2 := by
+  unfold viewAsComplex; split <;> simp_all
+
+end Views
+
 end DirectVerif.C02T
